@@ -223,12 +223,45 @@ def triage(args):
 def main():
     from harness import p_vsa
 
+    if "--hashseeds" in sys.argv:
+        # sdiv/udiv join their per-piece results in the iteration order of a set of StridedIntervals whose hash is a
+        # string hash: the failing tuples depend on PYTHONHASHSEED.  The table is the union over the listed seeds (the
+        # checks themselves always run under PYTHONHASHSEED=0, which is one of them).
+        import subprocess
+        import tempfile
+
+        i = sys.argv.index("--hashseeds")
+        seeds = [int(v) for v in sys.argv[i + 1].split(",")]
+        rest = sys.argv[1:i] + sys.argv[i + 2:]
+        path = os.path.join(ROOT, "known_vsa_tables.json")
+        union = {}
+        for sd in seeds:
+            with tempfile.TemporaryDirectory() as td:
+                out = os.path.join(td, "t.json")
+                env = dict(os.environ, PYTHONHASHSEED=str(sd), TRIAGE_OUT=out, PYTHONPATH=ROOT + os.pathsep + "/repo")
+                subprocess.run([sys.executable, os.path.abspath(__file__), *rest], env=env, check=True, stdout=subprocess.DEVNULL,
+                               stderr=subprocess.DEVNULL)
+                tabs = json.load(open(out))
+            for k, t in tabs.items():
+                u = union.setdefault(k, dict(t, keys=[], per_seed={}))
+                u["per_seed"][str(sd)] = t["count"]
+                if sd == seeds[0]:
+                    u["example"], u["example_case"] = t["example"], t["example_case"]
+                u["keys"] = sorted(set(u["keys"]) | set(t["keys"]))
+                u["count"] = len(u["keys"])
+        existing = json.load(open(path)) if os.path.exists(path) and rest and "--only" in rest else {}
+        existing.update(union)
+        with open(path, "w") as f:
+            json.dump(existing, f, separators=(",", ":"), sort_keys=True)
+        dep = sorted(k for k, t in union.items() if len(set(t["per_seed"].values())) > 1)
+        print("written", path, "seeds", seeds, "hash-seed-dependent tables:", dep)
+        return
     props = [a for a in sys.argv[1:] if a in ("C21", "C22")] or ["C21", "C22"]
     only = None
     if "--only" in sys.argv:
         only = sys.argv[sys.argv.index("--only") + 1]
     maxn_bin = 3
-    path = os.path.join(ROOT, "known_vsa_tables.json")
+    path = os.environ.get("TRIAGE_OUT") or os.path.join(ROOT, "known_vsa_tables.json")
     tables = json.load(open(path)) if os.path.exists(path) else {}
     jobs = []
     for prop in props:
